@@ -25,6 +25,8 @@ pub struct Node {
     pub script: RefCell<Vec<(When, Op)>>,
     /// value clones (make_mut) do not copy the stored handles
     pub shallow: Cell<bool>,
+    /// the destructor releases stored handles through into_raw + decrement_strong_count
+    pub raw_release: Cell<bool>,
 }
 
 impl Node {
@@ -36,6 +38,7 @@ impl Node {
             weaks: RefCell::new(Vec::new()),
             script: RefCell::new(Vec::new()),
             shallow: Cell::new(false),
+            raw_release: Cell::new(false),
         }
     }
 }
@@ -84,7 +87,12 @@ impl<'a> Finish<'a> {
             {
                 let _g = RelGuard { id, tgt };
                 let prev = alloc::enter_lib();
-                drop(h);
+                if node.raw_release.get() {
+                    let raw = Rc::into_raw(h);
+                    unsafe { Rc::decrement_strong_count(raw) };
+                } else {
+                    drop(h);
+                }
                 alloc::restore(prev);
             }
         }
@@ -196,6 +204,7 @@ impl Clone for Node {
         let n = Node::new(new_id);
         let shallow = self.shallow.get();
         n.shallow.set(shallow);
+        n.raw_release.set(self.raw_release.get());
         if !shallow {
             let outs = self.out.borrow();
             let mut v = n.out.borrow_mut();
